@@ -4,7 +4,7 @@
 
    (A) buffer: shifting every start by the same amount keeps the order of the starts, None
        starts staying first; with the option order (None below every integer) this needs no
-       hypothesis at all ([buffer_sorted_opt]); with the finite_start order the code sorts by
+       side condition at all ([buffer_sorted_opt]); with the finite_start order the code sorts by
        ([sorted_start], NEG_INF standing for None) it needs that no shifted start falls below
        the sentinel ([no_underflow]); the boundary witness is [buffer_underflow_refuted].
        Forward and reverse fetch: [buffer_fetch_sorted], [buffer_fetch_sorted_rev].
@@ -37,7 +37,7 @@ Definition ostart_le (a b : option Z) : Prop :=
 Lemma addO_ostart_le d a b : ostart_le a b -> ostart_le (addO a d) (addO b d).
 Proof. destruct a as [x|], b as [y|]; cbn [addO ostart_le]; try tauto. lia. Qed.
 
-(* no hypothesis: any amounts (even negative), any events *)
+(* unconditional: any amounts (even negative), any events *)
 Theorem buffer_sorted_opt before after l :
   pairwiseP (fun x y => ostart_le (st x) (st y)) l ->
   pairwiseP (fun x y => ostart_le (st x) (st y)) (map (buf_shift before after) l).
@@ -110,7 +110,7 @@ Theorem buffer_fetch_sorted_rev env s before after a b :
   desc_start (fetch env (Buf s before after) a b true).
 Proof. intros Hb Hn H. cbn [fetch]. apply buffer_desc_start; assumption. Qed.
 
-(* without any hypothesis, in the option order *)
+(* unconditional, in the option order *)
 Theorem buffer_fetch_sorted_opt env s before after a b :
   pairwiseP (fun x y => ostart_le (st x) (st y)) (fetch env s (addO a (- after)) (addO b before) false) ->
   pairwiseP (fun x y => ostart_le (st x) (st y)) (fetch env (Buf s before after) a b false).
@@ -618,3 +618,447 @@ Corollary C03_forward_wf2_margin env e a b :
   good2 env e -> wide (margin e) (fst (norm_bounds a b)) (snd (norm_bounds a b)) ->
   stream_wf (fst (norm_bounds a b)) (snd (norm_bounds a b)) false (slice env e a b false) = true.
 Proof. intros Hg Hw. apply C03_forward_wf2; [exact Hg|apply (wide_wins env); assumption]. Qed.
+
+(* ------------------------------------------------------------------------------------ *)
+(* (D) reverse slices: towers of buffer / filter over merge_within (of anything in [good2]) or
+   over an expression of the reverse-iteration domain [good'] of Proofs/Reverse2.v *)
+
+Inductive rtower (env : fenv) : expr -> Prop :=
+| rt_base e : good' env e -> rtower env e
+| rt_mw s g : good2 env s -> 0 <= g -> rtower env (MergeW s g)
+| rt_buf s before after : rtower env s -> 0 <= before -> 0 <= after -> buf_safe env s before after ->
+                          rtower env (Buf s before after)
+| rt_filt s f : rtower env s -> rtower env (Filt s f).
+
+Lemma rtower_good2 env e : rtower env e -> good2 env e.
+Proof.
+  induction 1 as [e [Hr _]|s g Hs Hg|s before after Hs IH Hb Ha Hsafe|s f Hs IH].
+  - apply g2_good, rgood_good, Hr.
+  - apply g2_mw; assumption.
+  - apply g2_buf; assumption.
+  - apply g2_filt; assumption.
+Qed.
+
+(* the invariant of the reverse fetch: the forward multiset, newest first, and either ends never
+   increase or no event ends at or before the window start (what the final clip needs) *)
+Definition rsok (env : fenv) (e : expr) (a b : option Z) : Prop :=
+  Permutation (fetch env e a b true) (fetch env e a b false) /\
+  desc_start (fetch env e a b true) /\
+  (mono_ends_desc (fetch env e a b true) \/ forall x, In x (fetch env e a b true) -> bnd_lo a < fend x).
+
+Lemma pairwiseP_filter R (p : ivl -> bool) l : pairwiseP R l -> pairwiseP R (filter p l).
+Proof.
+  induction l as [|x r IH]; [auto|]. intros [Hx Hr]. cbn [filter].
+  destruct (p x); [|auto]. split; [|auto]. intros y Hy. apply filter_In in Hy as [Hy _]. auto.
+Qed.
+
+Lemma buf_shift_fend_mono before after x y :
+  0 <= after -> (forall z, en x = Some z -> z + after <= POS_INF) ->
+  fend x <= fend y -> fend (buf_shift before after x) <= fend (buf_shift before after y).
+Proof.
+  intros Ha Hx H. unfold fend in *. rewrite !buf_shift_en.
+  destruct (en x) as [e1|] eqn:Ex, (en y) as [e2|] eqn:Ey; cbn [addO]; try lia.
+  specialize (Hx e1 eq_refl). lia.
+Qed.
+
+Theorem rtower_rsok env e : rtower env e -> forall a b, wins e a b -> rsok env e a b.
+Proof.
+  induction 1 as [e [Hr Htop]|s g Hs Hg|s before after Hs IH Hb Ha Hsafe|s f Hs IH];
+    intros a b Hw; pose proof (wins_wf_win _ a b Hw) as Hwin.
+  - (* base *)
+    destruct (fetch_rev_ok env e Hr a b Hwin) as [P K].
+    split; [exact P|]. split; [apply desc_key_starts, K|].
+    destruct Htop as [C|L].
+    + left. apply rev_ok_mono; [split; assumption|exact (C a b Hwin)].
+    + right. intros x Hx. apply (L a b Hwin). eapply Permutation_in; [exact P|exact Hx].
+  - (* MergeW: the reversal of a separated forward stream *)
+    cbn [wins] in Hw. destruct Hw as [_ Hw1]. destruct (fetch_ok2 env s Hs a b Hw1) as (S1 & S2 & S3).
+    destruct (fetch_mergew env s g a b) as [E1 E2]. unfold rsok. rewrite E2, E1.
+    destruct (mw_sorted g _ Hg S1 S2 S3) as [So Sep]. destruct (mw_out_wf g _ Hg S1 S2) as [W _].
+    split; [apply Permutation_sym, Permutation_rev|]. split.
+    + unfold desc_start. apply pairwiseP_rev. apply sorted_start_pw in So. exact So.
+    + left. apply separated_rev_mono; assumption.
+  - (* Buf *)
+    apply wins_buf in Hw as [_ Hw1]. destruct (IH _ _ Hw1) as (P & D & T).
+    pose proof (fetch_ok2 env s (rtower_good2 env s Hs) _ _ Hw1) as (S1 & _ & _).
+    pose proof (Hsafe _ _ Hw1) as Sf.
+    assert (Hel : forall x, In x (fetch env s (addO a (- after)) (addO b before) true) ->
+                            wf_ivl x /\ shift_safe before after x).
+    { intros x Hx. pose proof (Permutation_in _ P Hx) as Hx'. rewrite Forall_forall in S1, Sf. auto. }
+    unfold rsok. cbn [fetch]. split; [apply Permutation_map; exact P|]. split.
+    + apply buffer_desc_start; [exact Hb| |exact D]. apply Forall_forall. intros x Hx.
+      destruct (Hel x Hx) as [Wx Sx]. exact (proj2 (proj2 (buf_shift_ok before after x Hb Ha Wx Sx))).
+    + destruct T as [M|L].
+      * left. unfold mono_ends_desc in *. apply pairwiseP_map. revert M. apply pairwiseP_impl.
+        intros x y _ Hy Hxy. apply buf_shift_fend_mono; [exact Ha| |exact Hxy].
+        intros z Ez. destruct (Hel y Hy) as [_ [_ Sy]]. specialize (Sy z Ez). lia.
+      * right. intros y Hy. apply in_map_iff in Hy as (x & <- & Hx). specialize (L x Hx).
+        pose proof (wf_win_bounds a b Hwin) as [Ba Bb]. destruct Hwin as (_ & _ & Wl).
+        destruct (en x) as [e1|] eqn:Ee.
+        -- rewrite fend_buf_shift by congruence. rewrite (fend_some x e1 Ee) in *.
+           destruct a as [z|]; cbn [addO bnd_lo] in *; lia.
+        -- rewrite fend_buf_shift_none by exact Ee. lia.
+  - (* Filt *)
+    cbn [wins] in Hw. destruct Hw as [_ Hw1]. destruct (IH _ _ Hw1) as (P & D & T).
+    unfold rsok. cbn [fetch]. split; [apply Permutation_filter'; exact P|]. split.
+    + apply pairwiseP_filter. exact D.
+    + destruct T as [M|L]; [left; apply pairwiseP_filter; exact M|right].
+      intros x Hx. apply filter_In in Hx as [Hx _]. exact (L x Hx).
+Qed.
+
+(* the reverse slice on normalised bounds (non-intersection top node) *)
+Theorem slice_r_ok2 env e a b :
+  rtower env e -> (forall es, e <> Inter es) -> wins e a b ->
+  Permutation (slice_r env e a b) (slice_n env e a b) /\ desc_start (slice_r env e a b).
+Proof.
+  intros Hr Hni Hw. pose proof (wins_wf_win _ a b Hw) as Hwin.
+  destruct (rtower_rsok env e Hr a b Hw) as (P & D & T).
+  assert (Hcl : Permutation (fetch env (and_ e Solid) a b true) (fetch env (and_ e Solid) a b false) /\
+                desc_start (fetch env (and_ e Solid) a b true)).
+  { destruct (and_solid_cases e) as [(es & E & _)| -> ]; [exfalso; exact (Hni es E)|].
+    destruct (fetch_ok2 env e (rtower_good2 env e Hr) a b Hw) as (_ & _ & S3).
+    destruct (emit_sel_masks (is_mask e)) as [H0 H1].
+    rewrite fetch_clip_rev, fetch_clip, (clip_sweep_masks _ _ a b S3).
+    rewrite (clip_sweep_reverse _ (fetch env e a b true) a b H0 H1).
+    - split; [apply Permutation_flat_map; exact P|apply clip_desc; exact D].
+    - destruct T as [M|L]; [left; exact M|right].
+      intros x Hx. specialize (L x Hx). destruct Hwin as (_ & _ & Hlt). unfold before_win. lia. }
+  unfold slice_r, slice_n. destruct a as [x|], b as [y|]; try exact Hcl. split; assumption.
+Qed.
+
+(* GOAL 4d: C03 (reverse): non-increasing starts, elements non-empty, inside the window,
+   sentinel-free *)
+Theorem C03_reverse_wf2 env e a b :
+  rtower env e -> wins e (fst (norm_bounds a b)) (snd (norm_bounds a b)) ->
+  stream_wf (fst (norm_bounds a b)) (snd (norm_bounds a b)) true (slice env e a b true) = true.
+Proof.
+  intros Hr Hw. pose proof (wins_wf_win _ _ _ Hw) as Hwin.
+  assert (Hgen : (forall es, e <> Inter es) ->
+                 stream_wf (fst (norm_bounds a b)) (snd (norm_bounds a b)) true (slice env e a b true) = true).
+  { intro Hni. pose proof (C03_forward_wf2 env e a b (rtower_good2 env e Hr) Hw) as F.
+    rewrite slice_unfold_rev. rewrite slice_unfold in F.
+    destruct (slice_r_ok2 env e _ _ Hr Hni Hw) as [P D].
+    unfold stream_wf in *. apply andb_true_iff in F as [F _].
+    rewrite (desc_start_sorted_by _ D), andb_true_r. eapply forallb_perm; [exact P|exact F]. }
+  destruct Hr as [e Hg'|s g Hs Hg|s before after Hs Hb Ha Hsafe|s f Hs].
+  - apply Reverse2.C03_reverse_wf; [exact Hg'|exact Hwin].
+  - apply Hgen. intros es E. discriminate E.
+  - apply Hgen. intros es E. discriminate E.
+  - apply Hgen. intros es E. discriminate E.
+Qed.
+
+(* ---------- more sufficient conditions for [buf_safe]: towers ---------- *)
+
+Lemma shift_safe_shift b1 a1 b2 a2 x :
+  shift_safe (b1 + b2) (a1 + a2) x -> shift_safe b2 a2 (buf_shift b1 a1 x).
+Proof.
+  intros [S1 S2]. split; intros z E.
+  - rewrite buf_shift_st in E. destruct (st x) as [w|]; cbn [addO] in E; [|discriminate E].
+    injection E as <-. specialize (S1 w eq_refl). lia.
+  - rewrite buf_shift_en in E. destruct (en x) as [w|]; cbn [addO] in E; [|discriminate E].
+    injection E as <-. specialize (S2 w eq_refl). lia.
+Qed.
+
+Lemma buf_safe_buf env s b1 a1 b2 a2 :
+  buf_safe env s (b1 + b2) (a1 + a2) -> buf_safe env (Buf s b1 a1) b2 a2.
+Proof.
+  intros H a b Hw. apply wins_buf in Hw as [_ Hw1]. cbn [fetch].
+  apply Forall_map_intro. eapply Forall_impl; [|exact (H _ _ Hw1)].
+  intros x Hx. apply shift_safe_shift. exact Hx.
+Qed.
+
+Lemma max_end_attained l : forall x, exists y, In y (x :: l) /\ max_end l (fend x) = fend y.
+Proof.
+  induction l as [|z r IH]; intro x; [exists x; split; [left; reflexivity|reflexivity]|].
+  rewrite max_end_cons. destruct (Z.max_spec (fend x) (fend z)) as [[_ E]|[_ E]]; rewrite E.
+  - destruct (IH z) as (y & Hy & Ey). exists y. split; [right; exact Hy|exact Ey].
+  - destruct (IH x) as (y & Hy & Ey). exists y. split; [|exact Ey].
+    destruct Hy as [<-|Hy]; [left; reflexivity|right; right; exact Hy].
+Qed.
+
+Lemma buf_safe_mw env s g before after :
+  good2 env s -> 0 <= g -> buf_safe env s before after -> buf_safe env (MergeW s g) before after.
+Proof.
+  intros Hs Hg H a b Hw. cbn [wins] in Hw. destruct Hw as [_ Hw1].
+  destruct (fetch_ok2 env s Hs a b Hw1) as (S1 & S2 & S3). pose proof (H a b Hw1) as Sf.
+  destruct (fetch_mergew env s g a b) as [E _]. rewrite E.
+  set (src := fetch env s a b false) in *.
+  destruct (mw_out_wf g src Hg S1 S2) as [_ Co].
+  apply Forall_forall. intros o Ho.
+  destruct (mw_group_shape g src o Hg S1 S2 S3 Ho) as (x & grp & Ef & So & _ & _ & Fo & _ & _).
+  assert (Hin : forall y, In y (x :: grp) -> In y src).
+  { intros y Hy. rewrite <- Ef in Hy. apply filter_In in Hy as [Hy _]. exact Hy. }
+  rewrite Forall_forall in Sf. split; intros z Ez.
+  - rewrite So in Ez. exact (proj1 (Sf x (Hin x (or_introl eq_refl))) z Ez).
+  - destruct (max_end_attained grp x) as (y & Hy & Ey). rewrite <- Fo in Ey.
+    rewrite (fend_some o z Ez) in Ey.
+    destruct (en y) as [w|] eqn:Ew.
+    + rewrite (fend_some y w Ew) in Ey. subst w. exact (proj2 (Sf y (Hin y Hy)) z Ew).
+    + rewrite (fend_none y Ew) in Ey. subst z. exfalso.
+      destruct (proj1 (Forall_forall _ _) Co o Ho) as [_ C2]. exact (C2 Ez).
+Qed.
+
+(* ------------------------------------------------------------------------------------ *)
+(* non-vacuity: concrete expressions in the classes, concrete windows *)
+
+Module Examples4.
+  Definition ev (s e : Z) (id : N) : ivl := mkI (Some s) (Some e) (Rich id).
+  Definition env0 : fenv := [].
+
+  (* overlapping, nested and duplicated events, one unbounded to the right *)
+  Definition A : list ivl := [ev 0 10 1; ev 2 5 2; ev 2 5 2; ev 20 30 3; mkI (Some 60) None (Rich 4)].
+  Definition B : list ivl := [ev 8 12 5; mkI None (Some (-50)) (Rich 6)].
+  Definition D1 : list ivl := [ev 15 18 7; ev 0 4 8; ev 4 9 9].
+  Definition flt : filt := FCmp (PDur 1) Ge (VInt 3).
+
+  Definition t1 : expr := MergeW (Buf (Stored A) 2 3) 5.
+  Definition t2 : expr := Buf (MergeW (Filt (Stored A) flt) 4) 1 1.
+  Definition e4 : expr := Union [t1; t2; Diff (Stored D1) [Stored A]].
+  Definition e5 : expr := Inter [MergeW (Stored A) 0; Compl t1].
+  Definition e6 : expr := Diff t1 [t2; Stored B; e5].
+
+  Ltac safe_tac :=
+    repeat (apply Forall_cons;
+            [split; intros z E; cbn [ev st en] in E; try discriminate E; injection E as <-;
+             unfold NEG_INF, POS_INF; lia|]);
+    apply Forall_nil.
+
+  Lemma A_good : Assembly.good env0 (Stored A). Proof. apply sgood_good. vm_compute. reflexivity. Qed.
+  Lemma A_safe b a : 0 <= b <= 100 -> 0 <= a <= 100 -> Forall (shift_safe b a) A.
+  Proof. intros Hb Ha. unfold A. safe_tac. Qed.
+
+  Lemma t1_good2 : good2 env0 t1.
+  Proof.
+    apply g2_mw; [|lia]. apply g2_buf; [apply g2_good, A_good|lia|lia|].
+    apply buf_safe_stored, A_safe; lia.
+  Qed.
+  Lemma fA_good2 : good2 env0 (Filt (Stored A) flt).
+  Proof. apply g2_filt, g2_good, A_good. Qed.
+  Lemma t2_good2 : good2 env0 t2.
+  Proof.
+    apply g2_buf; [apply g2_mw; [exact fA_good2|lia]|lia|lia|].
+    apply buf_safe_mw; [exact fA_good2|lia|]. apply buf_safe_filt, buf_safe_stored, A_safe; lia.
+  Qed.
+  Lemma e4_good2 : good2 env0 e4.
+  Proof.
+    apply g2_union. constructor; [exact t1_good2|]. constructor; [exact t2_good2|].
+    constructor; [|constructor]. apply g2_good, sgood_good. vm_compute. reflexivity.
+  Qed.
+  Lemma e5_good2 : good2 env0 e5.
+  Proof.
+    apply g2_inter; [discriminate| |].
+    - constructor; [apply g2_mw; [apply g2_good, A_good|lia]|].
+      constructor; [apply g2_compl, t1_good2|constructor].
+    - constructor; [apply dj2_mw; [apply g2_good, A_good|lia]|].
+      constructor; [apply dj2_compl, t1_good2|constructor].
+  Qed.
+  Lemma e6_good2 : good2 env0 e6.
+  Proof.
+    apply g2_diff; [exact t1_good2| |].
+    - constructor; [exact t2_good2|]. constructor; [|constructor; [exact e5_good2|constructor]].
+      apply g2_good, sgood_good. vm_compute. reflexivity.
+    - apply dj2_mw; [|lia]. apply g2_buf; [apply g2_good, A_good|lia|lia|].
+      apply buf_safe_stored, A_safe; lia.
+  Qed.
+
+  (* windows: any bounds further than [margin] from the sentinels, in any order *)
+  Lemma wide_small m x y : 0 <= m <= 1000 -> -1000000 <= x < y -> y <= 1000000 ->
+    wide m (Some x) (Some y) /\ wide m (Some x) None /\ wide m None (Some y) /\ wide m None None.
+  Proof.
+    intros Hm Hx Hy. unfold wide, wf_win. cbn [bnd_lo bnd_hi]. unfold NEG_INF, POS_INF.
+    repeat split; intros; try discriminate;
+      try match goal with H : Some _ = Some _ |- _ => injection H as <- end; lia.
+  Qed.
+
+  Example e4_C03 : stream_wf (Some 1) (Some 40) false (slice env0 e4 (Some 40) (Some 1) false) = true.
+  Proof.
+    pose proof (C03_forward_wf2_margin env0 e4 (Some 40) (Some 1) e4_good2) as H.
+    change (fst (norm_bounds (Some 40) (Some 1))) with (Some 1) in H.
+    change (snd (norm_bounds (Some 40) (Some 1))) with (Some 40) in H.
+    apply H. apply (wide_small (margin e4) 1 40); vm_compute; repeat split; discriminate.
+  Qed.
+
+  Example e6_C03 : stream_wf (Some (-7)) None false (slice env0 e6 (Some (-7)) None false) = true.
+  Proof.
+    apply (C03_forward_wf2_margin env0 e6 (Some (-7)) None e6_good2).
+    apply (wide_small (margin e6) (-7) 0); vm_compute; repeat split; discriminate.
+  Qed.
+
+  Example e6_C03_open : stream_wf None None false (slice env0 e6 None None false) = true.
+  Proof.
+    apply (C03_forward_wf2_margin env0 e6 None None e6_good2).
+    apply (wide_small (margin e6) 0 1); vm_compute; repeat split; discriminate.
+  Qed.
+
+  (* what the streams look like *)
+  Example t1_value :
+    slice env0 t1 None None false =
+    [mkI (Some (-2)) (Some 33) (Rich 1); mkI (Some 58) None (Rich 4)].
+  Proof. vm_compute. reflexivity. Qed.
+
+  (* reverse: a tower over merge_within, and a tower over a stored timeline *)
+  Definition r1 : expr := Buf (Filt (MergeW (Union [Stored A; Stored B]) 3) flt) 2 2.
+  Definition r2 : expr := Filt (Buf (Stored A) 1 1) flt.
+
+  Lemma B_safe b a : 0 <= b <= 100 -> 0 <= a <= 100 -> Forall (shift_safe b a) B.
+  Proof. intros Hb Ha. unfold B. safe_tac. Qed.
+
+  Lemma AB_good2 : good2 env0 (Union [Stored A; Stored B]).
+  Proof. apply g2_good, sgood_good. vm_compute. reflexivity. Qed.
+
+  Lemma buf_safe_union_stored env evss before after :
+    Forall (Forall (shift_safe before after)) evss -> buf_safe env (Union (map Stored evss)) before after.
+  Proof.
+    intros H a b Hw. pose proof (wins_wf_win _ a b Hw) as Hwin.
+    rewrite fetch_union. apply Forall_merge. rewrite map_map.
+    apply Forall_map_intro. eapply Forall_impl; [|exact H]. intros evs Hevs.
+    exact (buf_safe_stored env evs before after Hevs a b (conj Hwin I)).
+  Qed.
+
+  Lemma r1_tower : rtower env0 r1.
+  Proof.
+    apply rt_buf; [apply rt_filt, rt_mw; [exact AB_good2|lia]|lia|lia|].
+    apply buf_safe_filt, buf_safe_mw; [exact AB_good2|lia|].
+    apply (buf_safe_union_stored env0 [A; B]). constructor; [apply A_safe; lia|].
+    constructor; [apply B_safe; lia|constructor].
+  Qed.
+
+  Lemma r2_tower : rtower env0 r2.
+  Proof.
+    apply rt_filt, rt_buf; [apply rt_base, sgood'_sound; vm_compute; reflexivity|lia|lia|].
+    apply buf_safe_stored, A_safe; lia.
+  Qed.
+
+  Example r1_C03_rev : stream_wf (Some 1) (Some 40) true (slice env0 r1 (Some 40) (Some 1) true) = true.
+  Proof.
+    pose proof (C03_reverse_wf2 env0 r1 (Some 40) (Some 1) r1_tower) as H.
+    change (fst (norm_bounds (Some 40) (Some 1))) with (Some 1) in H.
+    change (snd (norm_bounds (Some 40) (Some 1))) with (Some 40) in H.
+    apply H. apply (wide_wins env0); [apply rtower_good2, r1_tower|].
+    apply (wide_small (margin r1) 1 40); vm_compute; repeat split; discriminate.
+  Qed.
+
+  Example r2_C03_rev : stream_wf None (Some 25) true (slice env0 r2 None (Some 25) true) = true.
+  Proof.
+    apply (C03_reverse_wf2 env0 r2 None (Some 25) r2_tower).
+    apply (wide_wins env0); [apply rtower_good2, r2_tower|].
+    apply (wide_small (margin r2) 0 25); vm_compute; repeat split; discriminate.
+  Qed.
+
+  Example r2_value :
+    slice env0 r2 None (Some 25) true =
+    [mkI (Some 19) (Some 25) (Rich 3); mkI (Some 1) (Some 6) (Rich 2); mkI (Some 1) (Some 6) (Rich 2);
+     mkI (Some (-1)) (Some 11) (Rich 1)].
+  Proof. vm_compute. reflexivity. Qed.
+
+  (* a buffer over a buffer, and an intersection whose operands are a difference with a
+     merge_within source and a filtered merge_within *)
+  Definition t3 : expr := Buf (Buf (Stored A) 1 1) 2 2.
+  Definition e7 : expr := Inter [Diff t1 [Stored B]; Filt (MergeW (Stored A) 1) flt; t3].
+
+  Lemma bA_good2 : good2 env0 (Buf (Stored A) 2 3).
+  Proof. apply g2_buf; [apply g2_good, A_good|lia|lia|]. apply buf_safe_stored, A_safe; lia. Qed.
+  Lemma t3_good2 : good2 env0 t3.
+  Proof.
+    apply g2_buf; [apply g2_buf; [apply g2_good, A_good|lia|lia|]|lia|lia|].
+    - apply buf_safe_stored, A_safe; lia.
+    - apply buf_safe_buf, buf_safe_stored, A_safe; lia.
+  Qed.
+  Lemma B_good2 : good2 env0 (Stored B).
+  Proof. apply g2_good, sgood_good. vm_compute. reflexivity. Qed.
+
+  (* t3 is not internally disjoint (A has nested events), so e7 is NOT in the class; the variant
+     with a disjoint stored timeline in its place is *)
+  Definition t3' : expr := Buf (Buf (Stored D1) 1 1) 2 2.
+  Definition e7' : expr := Inter [Diff t1 [Stored B]; Filt (MergeW (Stored A) 1) flt; MergeW t3' 0].
+  Lemma D1_good : Assembly.good env0 (Stored D1). Proof. apply sgood_good. vm_compute. reflexivity. Qed.
+  Lemma D1_safe b a : 0 <= b <= 100 -> 0 <= a <= 100 -> Forall (shift_safe b a) D1.
+  Proof. intros Hb Ha. unfold D1. safe_tac. Qed.
+  Lemma t3'_good2 : good2 env0 t3'.
+  Proof.
+    apply g2_buf; [apply g2_buf; [apply g2_good, D1_good|lia|lia|]|lia|lia|].
+    - apply buf_safe_stored, D1_safe; lia.
+    - apply buf_safe_buf, buf_safe_stored, D1_safe; lia.
+  Qed.
+  Lemma e7'_good2 : good2 env0 e7'.
+  Proof.
+    apply g2_inter; [discriminate| |].
+    - constructor; [apply g2_diff; [exact t1_good2|constructor; [exact B_good2|constructor]|]|].
+      + apply dj2_mw; [exact bA_good2|lia].
+      + constructor; [apply g2_filt, g2_mw; [apply g2_good, A_good|lia]|].
+        constructor; [apply g2_mw; [exact t3'_good2|lia]|constructor].
+    - constructor; [apply dj2_diff; [exact t1_good2|constructor; [exact B_good2|constructor]|]|].
+      + apply dj2_mw; [exact bA_good2|lia].
+      + constructor; [apply dj2_filt, dj2_mw; [apply g2_good, A_good|lia]|].
+        constructor; [apply dj2_mw; [exact t3'_good2|lia]|constructor].
+  Qed.
+  Example e7'_C03 : stream_wf (Some 0) (Some 100) false (slice env0 e7' (Some 0) (Some 100) false) = true.
+  Proof.
+    apply (C03_forward_wf2_margin env0 e7' (Some 0) (Some 100) e7'_good2).
+    apply (wide_small (margin e7') 0 100); vm_compute; repeat split; discriminate.
+  Qed.
+  Example e7'_value :
+    slice env0 e7' (Some 0) (Some 100) false =
+    [mkI (Some 0) (Some 8) (Rich 1); mkI (Some 0) (Some 8) (Rich 1); mkI (Some 0) (Some 8) (Rich 8);
+     mkI (Some 20) (Some 21) (Rich 1); mkI (Some 20) (Some 21) (Rich 3); mkI (Some 20) (Some 21) (Rich 8)].
+  Proof. vm_compute. reflexivity. Qed.
+
+  (* the premises of (A) and (B) *)
+  Example buffer_instance a b :
+    sorted_start (fetch env0 (Buf (Stored A) 2 3) a b false).
+  Proof.
+    apply buffer_fetch_sorted; [lia| |].
+    - rewrite fetch_stored. apply Forall_filter, Forall_forall. intros x Hx.
+      apply (proj1 (sl_build_in _ _)) in Hx.
+      destruct (proj1 (Forall_forall _ _) (A_safe 2 3 ltac:(lia) ltac:(lia)) x Hx) as [S1 _].
+      intros z E. specialize (S1 z E). lia.
+    - rewrite fetch_stored. apply sorted_start_filter, sorted_key_sorted_start, sl_build_sorted.
+  Qed.
+
+  Example buffer_rev_instance a b :
+    desc_start (fetch env0 (Buf (Stored A) 2 3) a b true).
+  Proof.
+    apply buffer_fetch_sorted_rev; [lia| |].
+    - rewrite (proj2 (fetch_stored_spec env0 A _ _)). apply Forall_forall. intros x Hx.
+      apply in_rev in Hx. apply filter_In in Hx as [Hx _]. apply (proj1 (sl_build_in _ _)) in Hx.
+      destruct (proj1 (Forall_forall _ _) (A_safe 2 3 ltac:(lia) ltac:(lia)) x Hx) as [S1 _].
+      intros z E. specialize (S1 z E). lia.
+    - rewrite (proj2 (fetch_stored_spec env0 A _ _)). unfold desc_start. apply pairwiseP_rev.
+      apply sorted_start_pw. apply sorted_start_filter, sorted_key_sorted_start, sl_build_sorted.
+  Qed.
+
+  Example mw_instance a b : wf_win a b ->
+    strict_start (fetch env0 (MergeW (Stored A) 5) a b false) /\
+    strict_desc_start (fetch env0 (MergeW (Stored A) 5) a b true).
+  Proof.
+    intro Hw. destruct (fetch_ok env0 (Stored A) A_good a b Hw) as (S1 & S2 & S3 & _).
+    destruct (mw_fetch_sorted env0 (Stored A) 5 a b ltac:(lia) S1 S2 S3) as (R1 & _ & _ & R4 & _).
+    split; assumption.
+  Qed.
+End Examples4.
+
+Print Assumptions buffer_sorted_opt.
+Print Assumptions buffer_sorted_start.
+Print Assumptions buffer_fetch_sorted.
+Print Assumptions buffer_fetch_sorted_rev.
+Print Assumptions buffer_fetch_sorted_opt.
+Print Assumptions buffer_fetch_sorted_opt_rev.
+Print Assumptions buffer_underflow_refuted.
+Print Assumptions mw_fetch_sorted.
+Print Assumptions fetch_ok2.
+Print Assumptions slice_n_ok2.
+Print Assumptions C03_forward_wf2.
+Print Assumptions C03_forward_wf_good.
+Print Assumptions wide_wins.
+Print Assumptions C03_forward_wf2_margin.
+Print Assumptions dj2_mw.
+Print Assumptions dj2_compl.
+Print Assumptions dj2_diff.
+Print Assumptions buf_safe_mw.
+Print Assumptions rtower_rsok.
+Print Assumptions slice_r_ok2.
+Print Assumptions C03_reverse_wf2.
+Print Assumptions Examples4.e4_C03.
+Print Assumptions Examples4.e6_C03.
+Print Assumptions Examples4.r1_C03_rev.
+Print Assumptions Examples4.r2_C03_rev.
